@@ -382,7 +382,7 @@ def run(ctx):
     # (C) model checking
     if ctx.want("mc"):
         r = ctx.mc_expect_ok("script/MC_Machine.tla", "MC_Machine.cfg", what="reference machine vs implementation-shaped evaluator",
-                             env={"MAXLEN": 3 if q else 4}, timeout=3000)
+                             env={"MAXLEN": 3 if q else 4}, timeout=7200)
         ctx.exhaustive.append("all programs of <= %d commands over an 18-command alphabet: Refinement, NoFalseAccept, "
                               "RunAgrees, SkippedInert (%d distinct states)" % (3 if q else 4, r.distinct))
     # (A) tables
@@ -399,7 +399,7 @@ def run(ctx):
         def mk(kind, env):
             e = {"SHALLOW": shallow, "DEEP": deep, "SWEEPLO": 0, "SWEEPHI": 0}
             e.update(env)
-            return lambda: (kind, ctx.table("script/C07Tables.tla", "C07Tables.cfg", env=e, timeout=3000))
+            return lambda: (kind, ctx.table("script/C07Tables.tla", "C07Tables.cfg", env=e, timeout=7200))
         for kind, rows in ctx.parallel([mk(k, e) for k, e in jobs]):
             {"ops": replay_ops, "time": replay_time, "num": replay_num, "str": replay_str}[kind](ctx, rows)
         ctx.exhaustive.append("single-opcode table: every implemented non-flow opcode x every stack of depth <= %d over a "
@@ -410,7 +410,7 @@ def run(ctx):
         nprog = 1500 if q else 30000
         cases = record_runs(ctx, rng, nprog) + num_cases(ctx, rng, 300 if q else 5000)
         byid = {c["id"]: c for c in cases}
-        bad = ctx.validate("script/C07Cases.tla", cases, "C07Cases.cfg", timeout=3000)
+        bad = ctx.validate("script/C07Cases.tla", cases, "C07Cases.cfg", timeout=7200)
         for cid, why in bad.items():
             c = byid[cid]
             ctx.violation("%s:%s" % (classify_bad(c), why), "recorded %s rejected by specs/script/Consensus.tla: %s\n%s"
